@@ -1,4 +1,5 @@
 import MuscleModel.Engines.Msg
+import MuscleModel.Engines.Srv
 
 open Muscle.Eng
 
@@ -12,7 +13,8 @@ partial def loop (h : IO.FS.Stream) (out : IO.FS.Stream) (e : Engine) (s : e.σ)
   loop h out e s'
 
 def engines : List (String × Engine) := [
-  ("msg", MsgEngine.engine)
+  ("msg", MsgEngine.engine),
+  ("srv", SrvEngine.engine)
 ]
 
 def main (args : List String) : IO UInt32 := do
